@@ -162,6 +162,11 @@ def random_case(rng, features=()):
             forced = []
             if "forced" in features and rng.random() < 0.7:
                 forced = [rng.choice(HEADERS)]
+                if rng.random() < 0.3:
+                    # a forced include whose name has no source extension: parsed in the language of the file it is forced into
+                    pre = os.path.dirname(src) + "/pre.def"
+                    files.setdefault(pre, [L("define", name="M", value=SRC_MACROS["M"]), L("code"), L("ifdef", name="A"), L("code"), L("endif")])
+                    forced = rng.choice([["pre.def"], ["pre.def"] + forced, forced + ["pre.def"]])
             entries.append({"file": src, "defines": defines, "include_paths": idirs, "include_files": forced})
         platforms[f"p{pi}"] = entries
     if "aliases" in features:
